@@ -344,7 +344,7 @@ pub fn tall_tree_replay(case: &Value) -> Result<Vec<crate::ctx::Viol>, String> {
 
 pub fn run_c01(ctx: &Ctx) -> (&'static str, Map<String, Value>) {
     // real tall trees run on their own threads while the lattice is explored
-    let tall_cfgs: Vec<(Hid, u32, u32, u64)> = if ctx.tier.thorough() { vec![(Hid::S16, 2, 20, 777_777), (Hid::S16, 4, 25, (1 << 25) - 1)] } else { vec![(Hid::S16, 2, 20, 777_777)] };
+    let tall_cfgs: Vec<(Hid, u32, u32, u64)> = if ctx.tier.thorough() { vec![(Hid::S16, 2, 20, 777_777), (Hid::S24, 4, 20, (1 << 20) - 1), (Hid::K16, 8, 15, 32767)] } else { vec![(Hid::S16, 2, 20, 777_777)] };
     let seed0 = ctx.seed;
     let tall_threads: Vec<_> = tall_cfgs
         .iter()
@@ -359,7 +359,7 @@ pub fn run_c01(ctx: &Ctx) -> (&'static str, Map<String, Value>) {
     let cfgs = breadth(ctx, devs, ctx.tier.thorough());
     let (agg, labels) = run_lattice(ctx, cfgs);
     ctx.assume("seeds and message bytes are parameters of the run (VERIF_SEED); lengths, block edges, counters and parameter shapes are enumerated");
-    ctx.assume("tree heights above 10 are outside the lifecycle engine; one real 2^20-leaf tree (thorough: also 2^25) is generated and used end to end per run, h=10 windows in the quick tier, one h=15 tree (first/last signatures) in the thorough tier");
+    ctx.assume("tree heights above 10 are outside the lifecycle engine; one real 2^20-leaf tree (thorough: a second one on another hash and a 2^15-leaf SHAKE tree) is generated and used end to end per run, h=10 windows in the quick tier, one h=15 tree (first/last signatures) in the thorough tier");
     let mut m = coverage(ctx, &agg, &labels, RULE, true);
     let (mc, md) = crate::props_msglen::msglen_sweep(ctx);
     m.insert("message_length_sweep".into(), json!({"cases": mc, "rule": md}));
@@ -511,6 +511,8 @@ pub fn run_c04(ctx: &Ctx) -> (&'static str, Map<String, Value>) {
     let mut cov = coverage(ctx, &agg, &labels, RULE, true);
     cov.insert("fault_alphabet".into(), json!(devs.iter().map(|d| format!("{:?}", d)).collect::<Vec<_>>()));
     crate::props_build::fv_cross_or_exit(ctx, &mut cov);
+    // SignAt tasks of the C14 lattice that are not inside the limits, in the three restricted builds
+    crate::props_build::restricted_cross(ctx, &mut cov, |t, wh| matches!(t, crate::probe_tasks::Task::SignAt { .. }) && wh != crate::props_build::Where::Inside);
     ("model_checking", cov)
 }
 
